@@ -47,6 +47,33 @@ const WIDTH: usize = 2;
 
 const MASK: u64 = 0x3;
 
+/// Verification hook (feature `verif_hooks`, off by default): lets a harness run the scalar ingestion
+/// path on a machine that has AVX2, by shadowing the feature-detection macro in this file only.
+#[cfg(feature = "verif_hooks")]
+pub mod verif_hooks {
+    use std::cell::Cell;
+
+    thread_local! {
+        static FORCE_SCALAR: Cell<bool> = Cell::new(false);
+    }
+
+    /// When set, `is_x86_feature_detected!` reports `false` to the code of this module (this thread only).
+    pub fn set_force_scalar(on: bool) {
+        FORCE_SCALAR.with(|c| c.set(on));
+    }
+
+    pub fn force_scalar() -> bool {
+        FORCE_SCALAR.with(|c| c.get())
+    }
+}
+
+#[cfg(all(feature = "verif_hooks", any(target_arch = "x86", target_arch = "x86_64")))]
+macro_rules! is_x86_feature_detected {
+    ($t:tt) => {
+        (!verif_hooks::force_scalar() && std::is_x86_feature_detected!($t))
+    };
+}
+
 /// A container for sequence of DNA bases.
 /// ```
 /// use debruijn::dna_string::DnaString;
